@@ -358,6 +358,21 @@ func (l *leaderListener) LeaderUpdated(info raftio.LeaderInfo) {
 	c.leaders[k] = info.LeaderID
 }
 
+// Leaders returns the distinct leader ids announced for a shard.
+func (c *Cluster) Leaders(shardID uint64) []uint64 {
+	c.leaderMu.Lock()
+	defer c.leaderMu.Unlock()
+	seen := map[uint64]bool{}
+	var out []uint64
+	for k, l := range c.leaders {
+		if k[0] == shardID && !seen[l] {
+			seen[l] = true
+			out = append(out, l)
+		}
+	}
+	return out
+}
+
 // LeaderTerms returns how many (shard, term) pairs had a leader announced.
 func (c *Cluster) LeaderTerms() int {
 	c.leaderMu.Lock()
